@@ -24,6 +24,8 @@ def sig():
     s = [("e", "Box('f%d%d', %d, %d, sym('f%d%d', %d))" % (i, j, i, j, i, j, j)) for i, j in SHAPES]
     s += [("e", "SWAP"), ("e", "COPY"), ("e", "DISCARD")]
     s += [("e", "Box('none', 1, 1, lambda x: None)"), ("e", "Box('pair', 1, 2, lambda x: (None, x))")]
+    # a single output handed back as a 1-tuple (legal: outputs are a tuple or a bare value)
+    s += [("e", "Box('tup', 1, 1, lambda x: ('tup(%s)' % (x,),))"), ("e", "Box('tup0', 0, 1, lambda: ('tup0()',))")]
     return s
 
 
@@ -36,7 +38,7 @@ def sym_apply(name, n_out, args):
     return tuple("%s%d(%s)" % (name, k, ",".join(map(str, args))) for k in range(n_out))
 
 
-def machine(d, inputs):
+def machine(d, inputs, calls=None):
     """Feed the inputs through the boxes in order, each applied to the wires at its offset."""
     wires = list(inputs)
     for b, off in zip(d.boxes, d.offsets):
@@ -55,8 +57,14 @@ def machine(d, inputs):
             outs = (None,)
         elif name == "pair":
             outs = (None, args[0])
+        elif name == "tup":
+            outs = ("tup(%s)" % (args[0],),)
+        elif name == "tup0":
+            outs = ("tup0()",)
         else:
             outs = sym_apply(name, n_out, args)
+            if calls is not None:
+                calls.append((name, tuple(map(str, args))))
         wires[off:off + n_in] = list(outs)
     return tuple(wires)
 
@@ -82,12 +90,18 @@ def check_diagram(params):
         k0, pi = params["payload"]
         inputs = inputs[:k0 % n_in] + (PAYLOADS[pi],) + inputs[k0 % n_in + 1:]   # any Python value may travel on a wire
     out = []
-    want = conv(machine(d, inputs), n_out)
+    expected_calls = []
+    want = conv(machine(d, inputs, expected_calls), n_out)
+    del build.CALL_LOG[:]
     try:
         got = call(d, inputs)
     except Exception as e:  # noqa
         out.append((_sig("raises", params), "%s(%s) raised %r, expected %r" % (d, inputs, e, want)))
         return out
+    if sorted(build.CALL_LOG) != sorted(expected_calls):
+        out.append((_sig("calls", params), "%s(%s): the box functions were called as %s, feeding the inputs through the "
+                    "boxes calls %s (each box once, also boxes without outputs)"
+                    % (d, ", ".join(map(str, inputs)), sorted(build.CALL_LOG)[:6], sorted(expected_calls)[:6])))
     if got != want or type(got) is not type(want):
         out.append((_sig("value", params), "%s(%s) = %r, expected %r" % (d, ", ".join(map(str, inputs)), got, want)))
     if ref.scan(d):
